@@ -97,6 +97,15 @@ def replay_box(arg):
             mism.append(("partition", "tilted box: inside and outside selections do not partition the cloud", rep))
     except Exception as ex_:
         mism.append(("raised", "tilted box raised %r" % (ex_,), rep))
+    # the same box derived by the library's interpolation from two displaced copies that were already cropped with
+    try:
+        from ..build import derive
+
+        od = derive(real_box(b))
+        if ids(od.crop_pointcloud(cl, bbox_scale=s, inside=True)) != gin or od.get_inside_pointcloud_num(cl, s) != n:
+            mism.append(("inside-points:derived-object", "an interpolated copy of the box selects other points than the box itself", rep))
+    except Exception as ex_:
+        mism.append(("raised", "derived box raised %r" % (ex_,), rep))
     # intensity column and a 3-column cloud select the same points
     g3 = o.crop_pointcloud(cl[:, :3].copy(), bbox_scale=s)
     if len(g3) != len(gin):
